@@ -33,6 +33,13 @@ Lemma layout_ok :
   c_S_IFMT = c_SQFS_INODE_MODE_MASK.
 Proof. repeat split; try reflexivity. discriminate. Qed.
 
+Lemma layout_sizes :
+  sizeof_sqfs_inode_t = 16 /\ sizeof_sqfs_inode_dir_t = 16 /\ sizeof_sqfs_inode_dir_ext_t = 24 /\
+  sizeof_sqfs_inode_file_t = 16 /\ sizeof_sqfs_inode_file_ext_t = 40 /\
+  sizeof_sqfs_inode_slink_t = 8 /\ sizeof_sqfs_inode_dev_t = 8 /\ sizeof_sqfs_inode_dev_ext_t = 12 /\
+  sizeof_sqfs_inode_ipc_t = 4 /\ sizeof_sqfs_inode_ipc_ext_t = 8 /\ sizeof_sqfs_dir_index_t = 12.
+Proof. repeat split; apply layout_ok. Qed.
+
 (* ------------------------------------------------------------------ *)
 (* well-formedness: every field fits the C type it is stored in        *)
 (* ------------------------------------------------------------------ *)
